@@ -1,8 +1,10 @@
 package pdfcpu
 
 // In-package binding for C26 (added to the package by build overlay, never part of /repo):
-// replays the SecPerm.tla matrix into the unexported permission machinery
-// (perm table, maskExtract, maskModify, hasNeededPermissions).
+// replays the SecPerm.tla matrix into the permission decision of the read path. The only unexported identifier
+// used is hasNeededPermissions(mode, enc) - the function handlePermissions calls; the table and the mask helpers
+// behind it are deliberately not referenced, so refactoring them does not break this binding. The classification
+// of a command mode is observed through the decisions (denied or not for every bit combination).
 
 import (
 	"bufio"
@@ -56,6 +58,7 @@ type verifSecRow struct {
 
 type verifSecCase struct {
 	P    int           `json:"p"`
+	V    int           `json:"v"`
 	R    int           `json:"r"`
 	Rows []verifSecRow `json:"rows"`
 }
@@ -81,12 +84,21 @@ func TestVerifSecPerm(t *testing.T) {
 	mism := func(c verifSecCase, row verifSecRow, what string, want, got any) {
 		bad++
 		if bad <= 200 {
-			b, _ := json.Marshal(map[string]any{"p": c.P, "r": c.R, "m": row.M, "what": what, "want": want, "got": got})
+			b, _ := json.Marshal(map[string]any{"p": c.P, "v": c.V, "r": c.R, "m": row.M, "what": what, "want": want, "got": got})
 			bw.Write(b)
 			bw.WriteByte('\n')
 		}
 	}
-	cases, rows, denied, classified := 0, 0, 0, 0
+	known := map[model.CommandMode]bool{}
+	maxMode := model.CommandMode(0)
+	for _, m := range verifSecModes {
+		known[m] = true
+		if m > maxMode {
+			maxMode = m
+		}
+	}
+	keyLen := map[int]int{1: 40, 2: 128, 4: 128, 5: 256}
+	cases, rows, denied := 0, 0, 0
 	distinct := map[string]bool{}
 	sc := bufio.NewScanner(f)
 	sc.Buffer(make([]byte, 1<<20), 1<<26)
@@ -96,50 +108,34 @@ func TestVerifSecPerm(t *testing.T) {
 			t.Fatal(err)
 		}
 		cases++
-		classified = 0
-		seen := map[model.CommandMode]bool{}
+		enc := func() *model.Enc { return &model.Enc{P: c.P, R: c.R, V: c.V, L: keyLen[c.V], Emd: true} }
 		for _, row := range c.Rows {
 			rows++
 			mode, ok := verifSecModes[row.M]
 			if !ok {
 				t.Fatalf("command mode %s of the specification is unknown to the binding", row.M)
 			}
-			seen[mode] = true
-			_, inTable := perm[mode]
-			if inTable != row.C {
-				mism(c, row, "classified in the permission table", row.C, inTable)
-			}
-			if row.C {
-				classified++
-			}
-			if got := maskExtract(mode, c.R); got != row.X {
-				mism(c, row, "maskExtract", row.X, got)
-			}
-			if got := maskModify(mode, c.R); got != row.Y {
-				mism(c, row, "maskModify", row.Y, got)
-			}
-			got := !hasNeededPermissions(mode, &model.Enc{P: c.P, R: c.R})
+			got := !hasNeededPermissions(mode, enc())
 			if got != row.D {
 				mism(c, row, "denied by hasNeededPermissions", row.D, got)
 			}
 			if got {
 				denied++
 			}
-			distinct[fmt.Sprintf("%s/%d/%d/%d", row.M, c.R, c.P&(row.X|row.Y), row.X|row.Y)] = true
-		}
-		// every entry of the live table must be covered by the specification's snapshot
-		for mode := range perm {
-			if !seen[mode] {
-				mism(c, verifSecRow{M: fmt.Sprintf("mode#%d", mode)}, "table entry missing from the specification", false, true)
+			if row.C {
+				distinct[fmt.Sprintf("%s/%d/%d/%d", row.M, c.R, c.P&(row.X|row.Y), row.X|row.Y)] = true
 			}
 		}
-		if len(perm) != classified {
-			mism(c, verifSecRow{M: "*"}, "number of classified command modes", classified, len(perm))
+		// command modes the specification does not list (added later) must not be refused anything
+		for m := model.CommandMode(0); m <= maxMode+16; m++ {
+			if !known[m] && !hasNeededPermissions(m, enc()) {
+				mism(c, verifSecRow{M: fmt.Sprintf("mode#%d", m)}, "command mode missing from the specification is classified", false, true)
+			}
 		}
 	}
 	if err := sc.Err(); err != nil {
 		t.Fatal(err)
 	}
-	s, _ := json.Marshal(map[string]any{"cases": cases, "rows": rows, "denied": denied, "mismatches": bad, "distinct": len(distinct), "table": len(perm)})
+	s, _ := json.Marshal(map[string]any{"cases": cases, "rows": rows, "denied": denied, "mismatches": bad, "distinct": len(distinct)})
 	fmt.Println("SUMMARY " + string(s))
 }
